@@ -416,6 +416,7 @@ func genC16(c *Ctx) {
 			}
 		}
 	}
+	genCsrc(c)
 	for i := 0; i < c.N(3, 12); i++ {
 		a := assets[r.Intn(len(assets))]
 		c16EarlyDelete(c, s, a, r.Pick(a.LoopDurMS+1, 3*a.LoopDurMS+17))
